@@ -301,6 +301,9 @@ func execFlat(c *flatCase) []string {
 	if err != nil {
 		return append(lines, "op panic constructor: "+err.Error(), "end")
 	}
+	// search objects are executed at once, at once and again after the next Add / Remove / Flush,
+	// or only after it (rexec.go); the search line is emitted where the Execute happens
+	var rex rexQueue
 	for _, cmd := range c.Cmds {
 		switch cmd.Op {
 		case "add":
@@ -308,12 +311,15 @@ func execFlat(c *flatCase) []string {
 			arg := append([]float32(nil), raw...)
 			err := idx.Add(*comet.NewVectorNodeWithID(cmd.ID, arg))
 			lines = append(lines, fmt.Sprintf("op add %d %s => %s", cmd.ID, core.VecHex(raw), vecErr(err)))
+			rex.run()
 		case "remove":
 			err := idx.Remove(*comet.NewVectorNodeWithID(cmd.ID, nil))
 			lines = append(lines, fmt.Sprintf("op remove %d => %s", cmd.ID, vecErr(err)))
+			rex.run()
 		case "flush":
 			err := idx.Flush()
 			lines = append(lines, "op flush => "+vecErr(err))
+			rex.run()
 		case "vecs":
 			ids, vecs, _ := idx.VerifFlatState()
 			var b strings.Builder
@@ -342,17 +348,21 @@ func execFlat(c *flatCase) []string {
 			if len(cmd.Filter) > 0 {
 				s = s.WithDocumentIDs(cmd.Filter...)
 			}
-			res, err := s.Execute()
-			out := ""
-			if err != nil {
-				out = "err " + vecErr(err)
-			} else {
-				out = hitsLine(res)
-			}
-			lines = append(lines, fmt.Sprintf("op search %d %s %s %s %s => %s", cmd.K, core.Hex32(thr),
-				core.IDs(cmd.Filter), cmd.Agg, core.VecHex(q), out))
+			cmd := cmd
+			rex.next(func() {
+				res, err := s.Execute()
+				out := ""
+				if err != nil {
+					out = "err " + vecErr(err)
+				} else {
+					out = hitsLine(res)
+				}
+				lines = append(lines, fmt.Sprintf("op search %d %s %s %s %s => %s", cmd.K, core.Hex32(thr),
+					core.IDs(cmd.Filter), cmd.Agg, core.VecHex(q), out))
+			})
 		}
 	}
+	rex.run()
 	return append(lines, "end")
 }
 
